@@ -27,6 +27,7 @@ def parseOp? (t : String) : Option Op :=
   else if t = "cost" then some .cost else if t = "getcost" then some .getCost
   else if t = "getcostb" then some .getCostB
   else if t = "step" then some .optStep
+  else if t = "exportraises" then some .exportRaises
   else if t.startsWith "set:" then (parseSpec? (t.drop 4).toString).map .setSpec
   else none
 
@@ -40,6 +41,7 @@ def outClass (prev : List Out) (o : Out) : String :=
   | .summ _ => s!"s{i}"
   | .costv _ _ _ => s!"c{i}"
   | .err => "e"
+  | .raised => "x"
   | _ => "-"
 
 def walk (stp : Cfg → State → Op → State × Out) (c : Cfg) : State → List Out → List Op → List String
